@@ -15,18 +15,17 @@ func NewArrayPattern(elements ...FallbackPattern) ArrayPattern {
 }
 
 func (p ArrayPattern) Bind(ctx context.Context, local Scope, value Value) (context.Context, Scope, error) {
-	switch value.(type) {
+	var array Array
+	switch value := value.(type) {
 	case EmptySet:
+		// The empty array: a pattern made only of ...rest and fallback items
+		// still matches it, so go through the general case.
 		if len(p.items) == 0 {
 			return ctx, EmptyScope, nil
 		}
-		return ctx, EmptyScope, fmt.Errorf("value [] is empty but pattern %s is not", p)
-	case GenericSet:
-		return ctx, EmptyScope, fmt.Errorf("value %s is not an array", value)
-	}
-
-	array, is := value.(Array)
-	if !is {
+	case Array:
+		array = value
+	default:
 		return ctx, EmptyScope, fmt.Errorf("value %s is not an array", value)
 	}
 	// An array pattern denotes a dense array starting at index 0; the items are
